@@ -780,9 +780,43 @@ CORPUS4 = [
 ]
 
 
+# fifth and sixth corpus decks: a shorthand entry DIRECTLY AFTER the closing
+# value of an interpolation (seeded change C14_H: stale reference entry), in a
+# FILL array, on an IMP data card and on a TR card
+CORPUS5_BASE = ('''corpus lattice three fillers\n80 0 -87 fill=3 imp:n=1\n'''
+                '''81 0 -81 82 -83 84 lat=1 u=3 fill=0:1 0:1 0:0 4 5 6 6 imp:n=1\n'''
+                '''82 1 -1.0 -85 u=4 imp:n=1\n83 0 85 u=4 imp:n=1\n'''
+                '''84 1 -2.0 -86 u=5 imp:n=1\n85 0 86 u=5 imp:n=1\n'''
+                '''88 1 -3.0 -88 u=6 imp:n=1\n89 0 88 u=6 imp:n=1\n86 0 87 imp:n=0\n\n'''
+                '''81 px 1.0\n82 px -1.0\n83 py 1.0\n84 py -1.0\n85 so 0.5\n86 so 0.25\n88 so 0.75\n'''
+                '''87 rpp -1.0 3.0 -1.0 3.0 -5.0 5.0\n\nm1 1001 1.0\n''')
+CORPUS5 = [
+    ('FILL array 4 1i 6 r', lambda t: t.replace('0:0 4 5 6 6 imp', '0:0 4 1i 6 r imp')),
+    ('FILL array 4 I 6 R', lambda t: t.replace('0:0 4 5 6 6 imp', '0:0 4 I 6 R imp')),
+    ('FILL array 4 1i 6 1r, u and lat behind it',
+     lambda t: t.replace('lat=1 u=3 fill=0:1 0:1 0:0 4 5 6 6 imp:n=1',
+                         'fill=0:1 0:1 0:0 4 1i 6 1r lat=1 u=3 imp:n=1')),
+]
+CORPUS6_BASE = ('''corpus imp and tr after interpolation\n1 1 -1.0 -1\n2 0 1 -2\n3 0 2 -3\n'''
+                '''4 0 3 -4\n5 0 4\n6 0 -5\n\n1 1 so 1.0\n2 so 2.0\n3 so 3.0\n4 so 4.0\n5 so 9.0\n\n'''
+                '''imp:n 1 1 2 1 0 0\ntr1 0 1 2 2 0 0 0 1 0 0 0 1\nm1 1001 1.0\n''')
+CORPUS6 = [
+    ('imp:n 1 1 2 1i 0 r', lambda t: t.replace('imp:n 1 1 2 1 0 0', 'imp:n 1 1 2 1i 0 r')),
+    ('imp:n 1 r 2 I 0 R', lambda t: t.replace('imp:n 1 1 2 1 0 0', 'IMP:N 1 r 2 I 0 R')),
+    ('imp:n 1.0 1 2 1 0 0 -- first entry with a fraction (seeded change C14_G)',
+     lambda t: t.replace('imp:n 1 1 2 1 0 0', 'imp:n 1.0 1 2 1 0 0')),
+    ('imp:n 1.00e0 1. 2 1 0 0', lambda t: t.replace('imp:n 1 1 2 1 0 0', 'imp:n 1.00e0 1. 2 1 0 0')),
+    ('tr1 0 1i 2 r ...', lambda t: t.replace('tr1 0 1 2 2 0 0', 'tr1 0 1i 2 r 0 0')),
+    ('tr1 0 1i 2 r 0 2i 1 (interpolation after interpolation)',
+     lambda t: t.replace('tr1 0 1 2 2 0 0 0 1 0', 'tr1 0 1i 2 r 0 2i 1 0')),
+]
+
+
 def run_corpus(res):
     for tag, base_text, cases in (('corpus3', CORPUS3_BASE, CORPUS3),
-                                  ('corpus4', CORPUS4_BASE, CORPUS4)):
+                                  ('corpus4', CORPUS4_BASE, CORPUS4),
+                                  ('corpus5', CORPUS5_BASE, CORPUS5),
+                                  ('corpus6', CORPUS6_BASE, CORPUS6)):
         base_n = outcome(convert(base_text))
         res.count(tag + ':base:' + str(base_n[0]))
         for label, rewrite in cases:
